@@ -8,9 +8,8 @@ reg(Check(
         "one history per Config: Load and Current hold Config.mu for their whole body, so concurrent callers see some sequential history; handlers that call back into the same Config (deadlock) are not modelled",
         "proto.Equal on SubscribeRequest / Target decides equality of message content (section hypotheses R_eqb_spec / O_eqb_spec; the correspondence run stands the content for by the deterministic wire form)",
         "Go maps have distinct keys (wf_config); all three Handler callbacks are set",
-        "replay_converges for target.go as it is now excludes histories in which the caller edits a loaded message in place (known finding KF-C17-1, refuted with witness); with fixes/C17_1_load_clone.diff it holds for those too",
     ],
     modelled=["target/target.go: Validate, NewConfig, NewConfigWithBase, Config.Load, checkRevision, handleDiffs, Config.Current (proto.Clone turning nil map values into empty messages)"],
 ),
-    level_text="Theorems in coq/Props/C17.v state, over the Gallina model of target.Config and for every history of loads (nil / invalid / stale / good, any valid base or none): the gate (applied iff valid and strictly newer, otherwise state unchanged and no handler call), monotonic revisions, that the handler calls of an accepted load are exactly the difference of the effective configurations (unchanged targets silent, changed ones announced once with the new settings and request content), and that replaying all calls - those of each load in any order - onto the effective base never errs and yields exactly the effective current configuration; order-independence of Validate and of the announcements under Go's map iteration; soundness of the executable specification K_P. The model is tied to target/target.go by a correspondence run evaluated inside Coq (all ordered pairs of configurations over a 2-target x 2-request universe, a nil-pointer pair family, seeded random histories with invalid/stale/nil loads and bases), which also applies K_P to the implementation's own observations.",
-    level_note="Trusted: Coq kernel + vm_compute, the hand-written model (validated only on the explored cases), the Go harness projection (deterministic wire form for message content). One open finding (KF-C17-1: configuration stored by reference) mirrored by the model flag patched_C17_1 = false; candidate patch in fixes/.")
+    level_text="Theorems in coq/Props/C17.v state, over the Gallina model of target.Config and for every history of loads (nil / invalid / stale / good, any valid base or none; in-place edits of a loaded message by the caller): the gate (applied iff valid and strictly newer, otherwise state unchanged and no handler call), monotonic revisions, that the handler calls of an accepted load are exactly the difference of the effective configurations (unchanged targets silent, changed ones announced once with the new settings and request content), and that replaying all calls - those of each load in any order - onto the effective base never errs and yields exactly the effective current configuration; order-independence of Validate and of the announcements under Go's map iteration; soundness of the executable specification K_P. The model is tied to target/target.go by a correspondence run evaluated inside Coq (all ordered pairs of configurations over a 2-target x 2-request universe, a nil-pointer pair family, seeded random histories with invalid/stale/nil loads, bases and in-place edits of loaded messages by the caller), which also applies K_P to the implementation's own observations.",
+    level_note="Trusted: Coq kernel + vm_compute, the hand-written model (validated only on the explored cases), the Go harness projection (deterministic wire form for message content). KF-C17-1 (configuration stored by reference) was fixed in /repo by b7e5099; the model flag patched_C17_1 = true follows the fixed code and C17_replay_converges_unpatched_refuted keeps the regression witness of the unpatched variant.")
